@@ -51,7 +51,15 @@ func (p *PubSubChainExchange) VerifDump() string {
 			fmt.Fprintf(&sb, "%s%d[", name, i)
 			for _, k := range m[i].Keys() {
 				v, _ := m[i].Peek(k)
-				fmt.Fprintf(&sb, "%x:%v,", k[:4], v.IsPlaceholder())
+				// the held chain by content (its tipsets), not by its memoised key: a chain rewritten in place must
+				// not look like the one that was admitted
+				content := ""
+				if !v.IsPlaceholder() && v.chain != nil {
+					for _, t := range v.chain.TipSets {
+						content += fmt.Sprintf("%d/%x;", t.Epoch, t.Key)
+					}
+				}
+				fmt.Fprintf(&sb, "%x:%v:%s,", k[:4], v.IsPlaceholder(), content)
 			}
 			sb.WriteString("]")
 		}
